@@ -195,4 +195,24 @@ pub fn run(ctx: &Ctx) {
         let nt = !printed.src.is_ascii() || printed.src.contains("92233720368547758") || rr.labels.contains("elem_assign");
         Some((Case{property: "C02".into(), kind: "hostile".into(), srcs: vec![printed.src.into_bytes()], pred: Pred::Expect(Expect::nocrash()), note: String::new()}, nt))
     });
+    if ctx.tier == Tier::Thorough && worker_available() && !ctx.stopped() && crate::fuzzdrive::build(ctx) {
+        // Coverage-guided: hostile decoded programs and raw mutations of the
+        // repository's own scripts; a caught panic aborts the target.
+        let seeds: Vec<Vec<u8>> = crate::repotests::load().into_iter().map(|t| { let mut v = vec![0u8]; v.extend(t.src.into_bytes()); v }).collect();
+        let r = crate::fuzzdrive::campaign(ctx, "nocrash", 12, 10, ctx.n(1, 40_000), 1400, &seeds);
+        ctx.label_n("libFuzzer executions (nocrash target)", r.executions);
+        for bytes in r.crashes {
+            if bytes.is_empty() {
+                continue;
+            }
+            let src: Vec<u8> = if bytes[0] % 4 == 0 {
+                bytes[1..].to_vec()
+            } else {
+                let mut t = sdmodel::tape::Tape::from_bytes(&bytes[1..]);
+                print::print_canonical(&gen::gen_prog(&mut t, &cfg)).src.into_bytes()
+            };
+            let case = Case{property: "C02".into(), kind: "libfuzzer".into(), srcs: vec![src], pred: Pred::Expect(Expect::nocrash()), note: "crash artifact of the nocrash fuzz target".into()};
+            ctx.judge(&case, true, Via::Cli, None);
+        }
+    }
 }
